@@ -84,20 +84,30 @@ class Ctx:
         self.obligations.append(Obligation(name, ok, detail))
         return ok
 
+    def gomod(self):
+        """A go.mod for the harness whose replace directive points at the
+        repository under test (VERIF_REPO, default /repo), with its go.sum."""
+        mod = os.path.join(self.scratch, "go.mod")
+        if not os.path.exists(mod):
+            txt = open(os.path.join(HARNESS, "go.mod")).read()
+            txt = re.sub(r'=> /repo\b', "=> " + REPO, txt)
+            open(mod, "w").write(txt)
+            shutil.copy(os.path.join(REPO, "go.sum"), os.path.join(self.scratch, "go.sum"))
+        return mod
+
     def build_harness(self):
-        """Build the Go harness against /repo's current tree (hooks on)."""
-        shutil.copy(os.path.join(REPO, "go.sum"), os.path.join(HARNESS, "go.sum"))
+        """Build the Go harness against the repository's current tree (hooks on)."""
         self.vh = os.path.join(self.scratch, "vh")
-        p = run(["go", "build", "-tags", "verif", "-o", self.vh, "./cmd/vh"],
+        p = run(["go", "build", "-modfile=" + self.gomod(), "-tags", "verif", "-o", self.vh, "./cmd/vh"],
                 cwd=HARNESS, env=GOENV, timeout=900)
         ok = p.returncode == 0
-        self.oblige("harness builds against /repo with -tags verif", ok, p.stdout[-2000:])
+        self.oblige("harness builds against the repository with -tags verif", ok, p.stdout[-2000:])
         return ok
 
     def extract_consts(self, topics):
         """Regenerate coq/Extracted/<topic>.v from /repo's current sources."""
         exe = os.path.join(self.scratch, "extractconsts")
-        p = run(["go", "build", "-o", exe, "./cmd/extractconsts"], cwd=HARNESS,
+        p = run(["go", "build", "-modfile=" + self.gomod(), "-o", exe, "./cmd/extractconsts"], cwd=HARNESS,
                 env=GOENV, timeout=600)
         if p.returncode != 0:
             self.oblige("constant extractor builds", False, p.stdout[-2000:])
